@@ -44,6 +44,10 @@ func (app *App) mount(prefix string, subApp *App) Router {
 	if prefix == "" {
 		prefix = "/"
 	}
+	// the routes are registered under "/"+prefix: key the sub-app (error handler, views, MountPath) alike
+	if prefix[0] != '/' {
+		prefix = "/" + prefix
+	}
 
 	// Support for configs of mounted-apps and sub-mounted-apps
 	for mountedPrefixes, subApp := range subApp.mountFields.appList {
